@@ -58,7 +58,7 @@ def ev(op, labels, consts, here):
     if 't' in op:
         return (labels[op['t']] if op['t'] in labels else consts[op['t']]) - here
     if 'off' in op:
-        return labels[op['off']] - here
+        return (labels[op['off']] if op['off'] in labels else consts[op['off']]) - here
     if 'pos' in op:
         return ev(op['pos'][1], labels, consts, here) + labels[op['pos'][0]]
     if 'hi' in op:
@@ -136,6 +136,8 @@ def r_item(it):
         return 'align %d' % it['n']
     if k == 'raw':
         return it['text']
+    if k == 'packn':
+        return 'pack %s, %d' % (it['fmt'], it['val'])
     raise KeyError(k)
 
 
@@ -177,6 +179,9 @@ def allowed_sizes(it, compress):
         return None     # depends on the offset: (-offset) mod n
     if k == 'raw':
         return {0}
+    if k == 'packn':
+        import struct
+        return {struct.calcsize(it['fmt'])}       # a format without byte-order character: Python's struct in native mode defines its size
     raise KeyError(k)
 
 
